@@ -173,7 +173,21 @@ def run_solvers(c, o):
         names.append("tail")
     flow = gen_flow(rng)
     base_case = dict(surfaces=surfs, flow=flow, compressible=c["compressible"])
-    tags = [s["fem_model_type"], "nsurf=%d" % len(surfs)]
+    npm = 0 if two else int(rng.choice([0, 1, 2]))
+    ptA = ptB = {}
+    if npm:
+        s["n_point_masses"] = npm
+        b2 = s["mesh"]["span"] / 2
+
+        def pm(thrust_on):
+            return {"point_mass_locations": [[float(rng.uniform(-1, 2)), float(-rng.uniform(0.15, 0.85) * b2), float(rng.uniform(-0.5, 0.5))] for _ in range(npm)],
+                    "point_masses": [float(x) for x in 10 ** rng.uniform(1.5, 3, npm)],
+                    "engine_thrusts": [float(x) for x in 10 ** rng.uniform(2, 4, npm)] if thrust_on else [0.0] * npm}
+
+        on = bool(rng.integers(2))
+        ptA, ptB = pm(on), pm(not on)
+        base_case.update(ptA)
+    tags = [s["fem_model_type"], "nsurf=%d" % len(surfs), "npm=%d" % npm]
     variants = [("nlbgs", "direct"), ("nlbgs_noaitken", "direct"), ("newton", "direct"), ("newton", "lbgs"), ("nlbgs", "lbgs")]
     ref_state = ref_out = None
     for nl, lin in variants:
@@ -207,16 +221,28 @@ def run_solvers(c, o):
         p.set_val("AS_point_0.coupled.aero_states.circulations", g * rng.uniform(-2, 3, g.shape))
         zoo.run(p)
         cmp(o, "path/initial_guess", state(p, names=names), ref_state, tags, what="restart from a random state")
-    # ---- arrival from other design points
+    # ---- arrival from other design points: A -> B (vs a fresh problem at B) -> A (vs the fresh problem at A)
+    flowB = dict(flow, alpha=flow["alpha"] + float(rng.uniform(-3, 5)), v=flow["v"] * float(rng.uniform(0.7, 1.2)))
+    caseB = dict(base_case, flow=flowB)
+    caseB.update(ptB)
+    pB = zoo.build_as(caseB)
+    zoo.run(pB)
+    stB, outB = state(pB, names=names), outputs(pB, names=names)
     for trial in range(2):
-        p.set_val("alpha_0", flow["alpha"] + rng.uniform(-4, 6))
-        p.set_val("v_0", flow["v"] * rng.uniform(0.6, 1.3))
+        p.set_val("alpha_0", flowB["alpha"])
+        p.set_val("v_0", flowB["v"])
+        for k_, v_ in ptB.items():
+            p.set_val(k_, np.array(v_, float))
         zoo.run(p)
+        cmp(o, "path/from_other_point", state(p, names=names), stB, tags, what="design point B reached from A vs a fresh problem at B")
+        cmp(o, "path/from_other_point", outputs(p, names=names), outB, tags, what="design point B reached from A vs a fresh problem at B")
         p.set_val("alpha_0", flow["alpha"])
         p.set_val("v_0", flow["v"])
+        for k_, v_ in ptA.items():
+            p.set_val(k_, np.array(v_, float))
         zoo.run(p)
-        cmp(o, "path/from_other_point", state(p, names=names), ref_state, tags, what="after visiting another design point")
-        cmp(o, "path/from_other_point", outputs(p, names=names), ref_out, tags, what="after visiting another design point")
+        cmp(o, "path/from_other_point", state(p, names=names), ref_state, tags, what="design point A revisited after B")
+        cmp(o, "path/from_other_point", outputs(p, names=names), ref_out, tags, what="design point A revisited after B")
     o.nontrivial = bool(np.abs(ref_state["wing.disp"]).max() > 1e-8)
 
 
